@@ -13,6 +13,10 @@ SET_DATA_RATE = 0x03
 SET_RADIO_ARC = 0x06
 
 
+class RadioThreadEnded(Exception):
+    """the driver's radio thread is gone although the link was not closed (it died on an exception)"""
+
+
 class HarnessTimeout(Exception):
     pass
 
@@ -104,8 +108,10 @@ class LockstepDongle(FakeDongle):
         with self.cv:
             waited = 0.0
             while self.parked is None:
-                self.cv.wait(0.25)
+                self.cv.wait(0.25 if waited else 0.02)
                 waited += 0.25
+                if getattr(self, 'alive_check', None) is not None and not self.alive_check() and self.parked is None:
+                    raise RadioThreadEnded('the radio thread has ended')
                 if waited > watchdog:
                     raise HarnessTimeout('radio thread did not transmit')
             return self.parked
